@@ -8,6 +8,7 @@ from .common import rotated
 
 S_I = [("t", {"a": INT, "b": INT, "p": BOOL, "q": BOOL})]
 S_F = [("t", {"a": INT, "f": REAL, "g": REAL})]
+S_I4 = [("t", {"a": INT, "b": INT, "c": INT, "d": INT})]
 
 # name -> (schema, expr builder, tags)
 E = {}
@@ -91,6 +92,14 @@ e("hmin2", S_I, lambda p, t: p.min(t.a, t.b))
 e("hmax3", S_I, lambda p, t: p.max(t.a, t.b, 3))
 e("hmin3", S_I, lambda p, t: p.min(t.a, t.b, -1))
 e("hmax4", S_I, lambda p, t: p.max(t.a, t.b, t.a + t.b, 0))
+e("hmin4", S_I, lambda p, t: p.min(t.a, t.b, t.a - t.b, 1))
+e("hmin5", S_I, lambda p, t: p.min(3, t.a, t.b, t.b - t.a, t.a + 1))
+e("hmax5", S_I, lambda p, t: p.max(-3, t.a, t.b, t.b - t.a, t.a + 1))
+e("hmin4_cols", S_I4, lambda p, t: p.min(t.a, t.b, t.c, t.d))
+e("hmax4_cols", S_I4, lambda p, t: p.max(t.a, t.b, t.c, t.d))
+e("coalesce4_cols", S_I4, lambda p, t: p.coalesce(t.a, t.b, t.c, t.d))
+e("hsum4_cols", S_I4, lambda p, t: p.sum(t.a, t.b, t.c, t.d))
+e("is_in4_cols", S_I4, lambda p, t: t.a.is_in(t.b, t.c, t.d))
 e("hsum", S_I, lambda p, t: p.sum(t.a, t.b, 1))
 e("hany", S_I, lambda p, t: p.any(t.p, t.q))
 e("hall", S_I, lambda p, t: p.all(t.p, t.q, t.a > 0))
@@ -141,4 +150,24 @@ def templates(cfg):
         schema, fn, tags = E[nm]
         prog2 = lambda p, t, fn=fn: t >> p.mutate(y=fn(p, t)) >> p.filter(p.C.y.is_not_null()) >> p.mutate(z=p.C.y == p.C.y)  # noqa: E731
         out.append(Template(f"c03.chain.{nm}", schema, prog2, props=("C03",), tags=tags, nmax=2))
+    # expression objects that are built in steps and reused (a partial when/then chain
+    # extended later, one when-clause with two thens, one expression in two columns)
+    def reuse_when(p, t):
+        base = p.when(t.a > 1).then(10)
+        ext = base.when(t.b > 1).then(20)
+        return t >> p.mutate(x=base, y=ext.otherwise(0), z=base.otherwise(-1))
+
+    out.append(Template("c03.reuse.when_base_extended", S_I, reuse_when, props=("C03",), nmax=2))
+
+    def reuse_clause(p, t):
+        w = p.when(t.p)
+        return t >> p.mutate(x=w.then(1), y=w.then(t.b).otherwise(t.a))
+
+    out.append(Template("c03.reuse.when_clause_two_thens", S_I, reuse_clause, props=("C03",), nmax=2))
+
+    def reuse_sub(p, t):
+        d = t.a - t.b
+        return t >> p.mutate(x=d.abs(), y=p.max(d, 0), z=d * d, w=-d, tags=None) if False else t >> p.mutate(x=d.abs(), y=p.max(d, 0), w=-d)
+
+    out.append(Template("c03.reuse.subexpr", S_I, reuse_sub, props=("C03",), nmax=2))
     return out
